@@ -51,7 +51,8 @@ type desc struct {
 	Mode      string    `json:"mode"` // scripted | nats-raw | service
 	ID        int       `json:"id"`
 	Ncb       int       `json:"callbacks"`
-	Fail      string    `json:"fail"` // "" | marshal | subscribe | subscribe-closed | publish | publish-maxpayload
+	Fail      string    `json:"fail"`          // "" | marshal | subscribe | subscribe-closed | publish | publish-maxpayload
+	Err       string    `json:"err,omitempty"` // which error VALUE the failing step returns (see mkErr)
 	Req       string    `json:"request"`
 	TimeoutMs int64     `json:"timeout_ms"`
 	Arr       []arrival `json:"arrivals,omitempty"`
@@ -412,6 +413,61 @@ type sconn struct {
 	fed     chan struct{}
 }
 
+// ---- the error values a failing step returns, each built together with its description as a
+// Coq errval term (Client/Model.v).  The description comes from how the error is BUILT here,
+// not from inspecting it with the code under test. ----
+
+var errKinds = []string{"plain", "wrapped", "connclosed", "accessdenied", "timeout", "notfound", "custom", "customdata",
+	"typednil", "wrapres", "wraptimeout", "resinternal", "emptymsg"}
+
+func eRes(code, msg string) string { return "(ERes " + B(code) + " " + B(msg) + ")" }
+
+func mkErr(kind string) (error, string) {
+	switch kind {
+	case "wrapped":
+		in := errors.New("verif: inner cause")
+		w := fmt.Errorf("verif: step refused: %w", in)
+		return w, "(EWrap " + B("verif: step refused: verif: inner cause") + " (EPlain " + B("verif: inner cause") + "))"
+	case "connclosed":
+		return nats.ErrConnectionClosed, "(EPlain " + B("nats: connection closed") + ")"
+	case "accessdenied":
+		return res.ErrAccessDenied, eRes("system.accessDenied", "Access denied")
+	case "timeout":
+		return res.ErrTimeout, eRes("system.timeout", "Request timeout")
+	case "notfound":
+		return res.ErrNotFound, eRes("system.notFound", "Not found")
+	case "custom":
+		return &res.Error{Code: "custom.x", Message: "Custom x"}, eRes("custom.x", "Custom x")
+	case "customdata":
+		return &res.Error{Code: "custom.withData", Message: "Custom with data", Data: map[string]int{"a": 1}}, eRes("custom.withData", "Custom with data")
+	case "typednil":
+		var e *res.Error
+		return e, "EResNil"
+	case "wrapres":
+		return fmt.Errorf("verif: denied: %w", res.ErrAccessDenied),
+			"(EWrap " + B("verif: denied: Access denied") + " " + eRes("system.accessDenied", "Access denied") + ")"
+	case "wraptimeout":
+		return fmt.Errorf("verif: gave up: %w", res.ErrTimeout),
+			"(EWrap " + B("verif: gave up: Request timeout") + " " + eRes("system.timeout", "Request timeout") + ")"
+	case "resinternal":
+		return &res.Error{Code: "system.internalError", Message: "Internal error: below"}, eRes("system.internalError", "Internal error: below")
+	case "emptymsg":
+		return &res.Error{Code: "custom.empty"}, eRes("custom.empty", "")
+	}
+	return errors.New("verif: step refused"), "(EPlain " + B("verif: step refused") + ")"
+}
+
+// a request value whose MarshalJSON fails with the given error: json.Marshal wraps it in a
+// *json.MarshalerError, whose Error() is prefix + inner.Error(), evaluated when called
+type errMarshaler struct{ e error }
+
+func (m errMarshaler) MarshalJSON() ([]byte, error) { return nil, m.e }
+
+var marshalerPrefix = func() string {
+	_, err := json.Marshal(errMarshaler{errors.New("\x00X")})
+	return strings.TrimSuffix(err.Error(), "\x00X")
+}()
+
 func (c *sconn) Publish(subject string, payload []byte) error {
 	c.mu.Lock()
 	c.extra = append(c.extra, "Publish("+subject+")")
@@ -437,7 +493,7 @@ func (c *sconn) ChanSubscribe(subject string, ch chan *nats.Msg) (*nats.Subscrip
 	var err error
 	switch c.d.Fail {
 	case "subscribe":
-		err = errors.New("verif: subscribe refused")
+		err, _ = mkErr(c.d.Err)
 	case "subscribe-closed":
 		sub, err = c.e.closed.ChanSubscribe(subject, ch)
 	default:
@@ -471,7 +527,7 @@ func (c *sconn) PublishRequest(subject, reply string, data []byte) error {
 	c.mu.Unlock()
 	switch c.d.Fail {
 	case "publish":
-		err := errors.New("verif: publish refused")
+		err, _ := mkErr(c.d.Err)
 		c.lastErr = err
 		return err
 	case "publish-maxpayload":
@@ -625,6 +681,12 @@ func reqValue(kind string, d *desc) interface{} {
 		return resprot.Request{Params: make(chan string)}
 	case "big":
 		return strings.Repeat("x", 2<<20)
+	case "marshaler":
+		e, _ := mkErr(d.Err)
+		return errMarshaler{e}
+	case "marshalerfield":
+		e, _ := mkErr(d.Err)
+		return resprot.Request{Params: errMarshaler{e}}
 	case "steps":
 		return resprot.Request{Params: svcParams{ID: d.ID, Steps: d.Steps}}
 	}
@@ -653,16 +715,45 @@ type cbRec struct {
 	d time.Duration
 }
 
-func failTerm(f string) string {
-	switch f {
+func safeText(err error) (t string) {
+	defer func() {
+		if recover() != nil {
+			t = "<Error() panicked>"
+		}
+	}()
+	return err.Error()
+}
+
+// the Coq term of the scripted failure: step + error value
+func failTerm(d *desc, marshalErr, lastErr error) string {
+	ev := ""
+	switch d.Fail {
+	case "":
+		return "FNone"
+	case "subscribe", "publish":
+		_, ev = mkErr(d.Err)
 	case "marshal":
-		return "FMarshal"
-	case "subscribe", "subscribe-closed":
-		return "FSubscribe"
-	case "publish", "publish-maxpayload":
-		return "FPublish"
+		if d.Req == "marshaler" || d.Req == "marshalerfield" {
+			_, in := mkErr(d.Err)
+			ev = "(ELazy " + B(marshalerPrefix) + " " + in + ")"
+		} else if marshalErr != nil {
+			ev = "(EPlain " + B(safeText(marshalErr)) + ")" // encoding/json's own error (unsupported type/value ...)
+		}
+	default: // real errors of the nats client
+		if lastErr != nil {
+			ev = "(EPlain " + B(safeText(lastErr)) + ")"
+		}
 	}
-	return "FNone"
+	if ev == "" {
+		ev = "(EPlain [])"
+	}
+	switch d.Fail {
+	case "marshal":
+		return "(FMarshal " + ev + ")"
+	case "subscribe", "subscribe-closed":
+		return "(FSubscribe " + ev + ")"
+	}
+	return "(FPublish " + ev + ")"
 }
 
 func runOne(e *env, d *desc) (Case, []ImplViolation) {
@@ -829,13 +920,9 @@ func runOne(e *env, d *desc) (Case, []ImplViolation) {
 	default:
 		injected = c.lastErr
 	}
-	intSum := "-"
-	if injected != nil {
-		intSum = summary(resprot.Response{Error: res.InternalError(injected)})
-	} else if d.Fail != "" {
+	if injected == nil && d.Fail != "" {
 		impl = append(impl, ImplViolation{What: "harness: the failing step did not fail", Desc: d, Tags: []string{"harness"}})
 	}
-	tmoSum := summary(resprot.Response{Error: res.ErrTimeout})
 
 	var arrT, parseT []string
 	seenP := map[string]bool{}
@@ -860,8 +947,8 @@ func runOne(e *env, d *desc) (Case, []ImplViolation) {
 		dd.Arr = arr
 	}
 	cs.Desc = dd
-	cs.Term = fmt.Sprintf("CC %s %s %s %s %s %s %s %s %s %s %s %s %s %s %s",
-		Nat(d.Ncb), failTerm(d.Fail), Z(int(dur(d.TimeoutMs))), List(arrT), List(parseT), B(intSum), B(tmoSum),
+	cs.Term = fmt.Sprintf("CC %s %s %s %s %s %s %s %s %s %s %s %s %s",
+		Nat(d.Ncb), failTerm(d, marshalErr, c.lastErr), Z(int(dur(d.TimeoutMs))), List(arrT), List(parseT),
 		B(summary(got.r)), List(cbT), Bool(subscribed), Bool(published), Bool(released), N(live), Z(int(dur(elapsedMs))), Bool(pubok))
 	kb, _ := json.Marshal(struct {
 		M, F, R string
@@ -869,7 +956,7 @@ func runOne(e *env, d *desc) (Case, []ImplViolation) {
 		T       int64
 		A       []arrival
 		S       []step
-	}{d.Mode, d.Fail, d.Req, d.Ncb, d.TimeoutMs, d.Arr, d.Steps})
+	}{d.Mode, d.Fail + "/" + d.Err, d.Req, d.Ncb, d.TimeoutMs, d.Arr, d.Steps})
 	cs.Key = string(kb)
 	pre := 0
 	for _, a := range arr {
@@ -881,6 +968,9 @@ func runOne(e *env, d *desc) (Case, []ImplViolation) {
 	cs.Tags = []string{"mode:" + d.Mode, "plan:" + d.Plan}
 	if d.Fail != "" {
 		cs.Tags = append(cs.Tags, "fail:"+d.Fail)
+	}
+	if d.Err != "" {
+		cs.Tags = append(cs.Tags, "err:"+d.Err)
 	}
 	if ncbs > 0 {
 		cs.Tags = append(cs.Tags, "extended")
@@ -923,20 +1013,41 @@ func genScripted(r *Rng, id int, mode string, dist map[string]int) *desc {
 	return d
 }
 
-func genFailing(r *Rng, id int, dist map[string]int) *desc {
+// k-th failing script: the first len(failCombos) cover every (step, error value) pair once
+var failSteps = []string{"subscribe", "publish", "marshal"}
+
+func genFailing(r *Rng, id, k int, dist map[string]int) *desc {
 	d := &desc{Mode: "scripted", ID: id, Ncb: r.Intn(4), Req: r.Pick(okReqs)}
 	d.TimeoutMs = timeouts[r.Intn(len(timeouts))]
-	d.Fail = r.Pick([]string{"marshal", "subscribe", "subscribe-closed", "publish", "publish-maxpayload", "marshal", "publish"})
+	nCombos := len(failSteps) * len(errKinds)
+	if k < nCombos {
+		d.Fail, d.Err = failSteps[k/len(errKinds)], errKinds[k%len(errKinds)]
+	} else {
+		d.Fail = r.Pick([]string{"marshal", "subscribe", "subscribe-closed", "publish", "publish-maxpayload", "marshal", "publish", "subscribe"})
+		d.Err = r.Pick(errKinds)
+	}
 	switch d.Fail {
 	case "marshal":
-		d.Req = r.Pick(badReqs)
+		switch {
+		case k < nCombos:
+			d.Req = "marshaler"
+		case r.Chance(50):
+			d.Req = r.Pick([]string{"marshaler", "marshalerfield"})
+		default:
+			d.Req, d.Err = r.Pick(badReqs), ""
+		}
 	case "publish-maxpayload":
-		d.Req = "big"
+		d.Req, d.Err = "big", ""
+	case "subscribe-closed":
+		d.Err = ""
 	}
 	// arrivals that would be delivered if the call wrongly went on
 	d.Arr, _, _ = genArrivals(r, d.TimeoutMs, 0, false)
 	d.Plan = "fail"
 	dist["fail:"+d.Fail]++
+	if d.Err != "" {
+		dist["fail-error:"+d.Err]++
+	}
 	return d
 }
 
@@ -1159,7 +1270,7 @@ func main() {
 		}
 		for i := 0; i < nFail; i++ {
 			id++
-			ds = append(ds, genFailing(r, id, dist))
+			ds = append(ds, genFailing(r, id, i, dist))
 		}
 		for i := 0; i < nRaw; i++ {
 			id++
@@ -1257,6 +1368,6 @@ func main() {
 	}
 	dist["nontrivial"] = nontriv
 	Emit(o, "C19", "From GoRes Require Import Run.Run_C19.", "ccase",
-		"SendRequest against a scripted res.Conn over an embedded nats-server: 0-6 arrivals on a 40 ms grid mixing valid timeout pre-responses (incl. escapes, signs, int64 wrap-around, several tags), pre-responses without effect, result/resource/error responses and garbage; failing marshal/subscribe/publish; plus arrivals sent through the server and a real res.Service playing handler scripts (many more in thorough), including long histories on both real-NATS legs: 0..100 (thorough ..300) timeout pre-responses 4 ms apart before the response, around every power of two and the inbox capacity 32, and back-to-back bursts up to that capacity; every timer-vs-message decision >= 120 ms from a tie; non-trivial = a failing step or at least one pre-response in the script; distinct by script",
+		"SendRequest against a scripted res.Conn over an embedded nats-server: 0-6 arrivals on a 40 ms grid mixing valid timeout pre-responses (incl. escapes, signs, int64 wrap-around, several tags), pre-responses without effect, result/resource/error responses and garbage; failing marshal/subscribe/publish, each with every kind of error value (plain, wrapped, nats sentinel, *res.Error with its own code incl. system.timeout, with Data, nil *res.Error, wrapper around a *res.Error; marshal through a failing MarshalJSON); plus arrivals sent through the server and a real res.Service playing handler scripts (many more in thorough), including long histories on both real-NATS legs: 0..100 (thorough ..300) timeout pre-responses 4 ms apart before the response, around every power of two and the inbox capacity 32, and back-to-back bursts up to that capacity; every timer-vs-message decision >= 120 ms from a tie; non-trivial = a failing step or at least one pre-response in the script; distinct by script",
 		cases, dist, extra, impl, 100)
 }
